@@ -4,13 +4,14 @@ From Apko Require Import Base.Prelude Model.C13Fs Model.PathMut Generated.C13Con
 Open Scope nat_scope. Open Scope string_scope. Open Scope list_scope.
 
 (* [changes AP AO S f g]: going from f to g,
-   - no node disappears, no node changes kind, link target or backing entry;
+   - no node disappears, no node changes kind or link target; a backing package
+     entry stays or (should truncation detach it) is let go of;
    - a mode that changed became one allowed by AP, an owner that changed one
      allowed by AO, a content that changed became empty;
    - outside the index set S mode, owner and content are untouched.
    (Directory listings are not constrained here.) *)
 Definition keeps (AP : N -> Prop) (AO : N -> N -> Prop) (touched : Prop) (a b : node) : Prop :=
-  nkind b = nkind a /\ ntarget b = ntarget a /\ nback b = nback a /\
+  nkind b = nkind a /\ ntarget b = ntarget a /\ (nback b = nback a \/ nback b = "") /\
   (nperm b = nperm a \/ AP (nperm b)) /\
   ((nuid b = nuid a /\ ngid b = ngid a) \/ AO (nuid b) (ngid b)) /\
   (ndata b = ndata a \/ ndata b = "") /\
@@ -28,7 +29,8 @@ Lemma keeps_trans : forall AP AO (t1 t2 : Prop) a b c,
   keeps AP AO t1 a b -> keeps AP AO t2 b c -> keeps AP AO (t1 \/ t2) a c.
 Proof.
   intros AP AO t1 t2 a b c (K1 & T1 & B1 & P1 & O1 & D1 & F1) (K2 & T2 & B2 & P2 & O2 & D2 & F2).
-  unfold keeps. split; [congruence|]. split; [congruence|]. split; [congruence|].
+  unfold keeps. split; [congruence|]. split; [congruence|].
+  split; [destruct B2 as [B2|B2]; [rewrite B2; exact B1 | right; exact B2]|].
   split; [destruct P2 as [P2|P2]; [rewrite P2; exact P1 | right; exact P2]|].
   split; [destruct O2 as [[U2 G2]|O2]; [rewrite U2, G2; exact O1 | right; exact O2]|].
   split; [destruct D2 as [D2|D2]; [rewrite D2; exact D1 | right; exact D2]|].
@@ -87,7 +89,7 @@ Proof.
   exists i. split; [exact Hg|]. split; [|split].
   - split; [rewrite set_nth_length; lia|]. intros j a Hj. destruct (Nat.eq_dec i j) as [<-|Hne].
     + rewrite Hn in Hj. inversion Hj; subst a. exists (with_perm n perm). split; [eapply get_set_eq; eauto|].
-      unfold keeps. cbn. split; [reflexivity|]. split; [reflexivity|]. split; [reflexivity|].
+      unfold keeps. cbn. split; [reflexivity|]. split; [reflexivity|]. split; [try (destruct tarfs_trunc_detaches); auto|].
       split; [auto|]. split; [auto|]. split; [auto|]. intro X. exfalso. apply X. left. reflexivity.
     + exists a. split; [rewrite get_set_neq; auto | apply keeps_refl].
   - intros d cs. rewrite !getnode_walk. revert cs. generalize root_ino. generalize (@nil string). revert d.
@@ -117,7 +119,7 @@ Proof.
   exists i. split; [exact Hg|]. split; [|split].
   - split; [rewrite set_nth_length; lia|]. intros j a Hj. destruct (Nat.eq_dec i j) as [<-|Hne].
     + rewrite Hn in Hj. inversion Hj; subst a. exists (with_owner n u g). split; [eapply get_set_eq; eauto|].
-      unfold keeps. cbn. split; [reflexivity|]. split; [reflexivity|]. split; [reflexivity|].
+      unfold keeps. cbn. split; [reflexivity|]. split; [reflexivity|]. split; [try (destruct tarfs_trunc_detaches); auto|].
       split; [auto|]. split; [auto|]. split; [auto|]. intro X. exfalso. apply X. left. reflexivity.
     + exists a. split; [rewrite get_set_neq; auto | apply keeps_refl].
   - intros d cs. rewrite !getnode_walk. revert cs. generalize root_ino. generalize (@nil string). revert d.
@@ -184,8 +186,8 @@ Proof.
   change [o] with ([] ++ [o]).
   apply (changes_trans AP AO [] [o] f f1); [apply ext_changes; eauto|].
   split; [rewrite upd_length; lia|]. intros j a Hj. destruct (Nat.eq_dec o j) as [<-|Hne].
-  - exists (with_data a ""). split; [exact (get_upd_eq f1 o (fun n => with_data n "") a Hj)|].
-    unfold keeps. cbn. split; [reflexivity|]. split; [reflexivity|]. split; [reflexivity|].
+  - exists (trunc_write a ""). split; [exact (get_upd_eq f1 o (fun n => trunc_write n "") a Hj)|].
+    unfold keeps. cbn. split; [reflexivity|]. split; [reflexivity|]. split; [try (destruct tarfs_trunc_detaches); auto|].
     split; [auto|]. split; [auto|]. split; [auto|]. intro X. exfalso. apply X. left. reflexivity.
   - exists a. split; [rewrite get_upd_neq; auto | apply keeps_refl].
 Qed.
